@@ -95,6 +95,65 @@ def realign(rng, seed, graph):
         return {'a': 'call', 'rel': 'realign', 'reused': total - n2, 'total': total, 'cuts': [], 'starts': [], 'key': 'r', 'grp': 'r'}
 
 
+def repo_suffix_group(rng, seed, graph, piece, mn, mx):
+    """the shared-suffix relation through REAL snapshots: file A (its size an exact multiple of the read-piece size, or not) followed by
+    a larger file B; then 4 bytes are removed from / inserted at the front of A and the snapshot is repeated. The stream handed to the
+    chunker is observed at RepositoryProps.chunkify (pieces in, chunks out): the second stream is the first one with another prefix, so from
+    the first common boundary on all chunks outside the tail zone of the STREAM must coincide - file ends inside the stream, piece
+    boundaries and empty files in between must not matter."""
+    from replicat import repository as rrepo
+    from . import c09
+    from .. import sched
+    calls = []
+    orig = rrepo.RepositoryProps.chunkify
+
+    def tee(self, it):
+        rec = {'pieces': [], 'cuts': []}
+        calls.append(rec)
+
+        def src():
+            for pc in it:
+                rec['pieces'].append(bytes(pc))
+                yield pc
+        for c in orig(self, src()):
+            rec['cuts'].append(bytes(c))
+            yield c
+    k = rng.randrange(1, 4)
+    exact_first = rng.random() < 0.5
+    la = k * piece if exact_first else k * piece + 4
+    A1 = rng.randbytes(la)
+    A2 = A1[4:] if exact_first else A1[8:]          # exact multiple in exactly one of the two snapshots
+    if rng.random() < 0.5:
+        A1, A2 = A2, A1
+    Bdata = rng.randbytes(la + 4 * rng.randrange(mx, 4 * mx))
+    with harness.scratch() as d:
+        s = repodrv.Session(graph, d, seed=seed, min_length=mn, max_length=mx)
+        extra = [s.write_file('empty.bin', b'')] if rng.random() < 0.5 else []
+        B = s.write_file('zz-b.bin', Bdata)
+        rrepo.RepositoryProps.chunkify = tee
+        c09.install(sched.Controller(piece=piece))
+        try:
+            A = s.write_file('a.bin', A1)
+            o1 = s.snapshot('a', extra + [A, B])
+            A = s.write_file('a.bin', A2)
+            o2 = s.snapshot('a', extra + [A, B])
+        finally:
+            c09.uninstall()
+            rrepo.RepositoryProps.chunkify = orig
+    assert o1.ok and o2.ok and len(calls) == 2, (o1.etype, o2.etype, len(calls))
+    streams = [b''.join(c['pieces']) for c in calls]
+    p1, p2 = len(A1), len(A2)
+    common = min(p1, p2)
+    assert streams[0][p1 - common:] == streams[1][p2 - common:], 'harness: the two streams do not share the expected suffix'
+    evs = []
+    for i, (c, pfx) in enumerate(zip(calls, (p1 - common, p2 - common))):
+        e = ev('repository', c['cuts'], streams[i], 'same' if i == 0 else 'suffix', shift=pfx, frm=pfx)
+        e['pieces'] = [len(x) for x in c['pieces']][:12]
+        evs.append(e)
+    return {'min': mn, 'max': mx, 'events': evs, 'resync': R * mx, 'keyhex': '', 'stream_len': len(streams[0]),
+            'kind': 'real snapshots: A (%d bytes, read piece %d) then B, A edited at its front' % (p1, piece)}
+
+
 def main(run):
     quick = run.tier == 'quick'
     rng = random.Random(run.seed + 11)
@@ -117,6 +176,10 @@ def main(run):
     for i in range(3 if quick else 40):
         traces.append(key_group(rng, 4, 64, 16384))
         run.case(('keys', i))
+    for i in range(6 if quick else 60):
+        g = ['plain', 'shared', 'mixed'][i % 3]
+        traces.append(repo_suffix_group(rng, run.seed * 100 + i, g, [1024, 4096, 512][i % 3], 8, [128, 256][i % 2]))
+        run.case(('repo-suffix', i, g))
     pad = {'min': 32, 'max': 512, 'events': [realign(rng, run.seed * 10 + i, g) for i, g in enumerate(['plain', 'shared'] if quick else ['plain', 'shared', 'same', 'indep', 'mixed', 'plain'])],
            'resync': 0, 'keyhex': '', 'stream_len': 0, 'kind': 'same file at two aligned stream positions of real snapshots'}
     traces.append(pad)
@@ -143,7 +206,7 @@ def main(run):
                                         'call': {k: e.get(k) for k in ('impl', 'rel', 'shift', 'from', 'editend', 'total', 'reused')}, 'first_cuts': e['cuts'][:12]})
     run.sample({'kind': traces[7]['kind'], 'min': traces[7]['min'], 'max': traces[7]['max'], 'first_cuts': traces[7]['events'][0]['cuts'][:16]})
     run.coverage['rule'] = ('a case is one group of related streams chunked by the adapter and the rebuilt library: two prefixes + shared suffix; original + '
-                            'aligned local edit (insert / delete / overwrite, 128 KiB of random data, edit in the first quarter); one stream under two keys; '
+                            'aligned local edit (insert / delete / overwrite, 128 KiB of random data, edit in the first quarter); one stream under two keys; one pair of real snapshots whose chunker input streams share a suffix (file ends on / off read-piece boundaries); '
                             'one pair of real snapshots with the same file at two stream positions')
     run.assumptions += ['the re-synchronisation bound R*max (R = 960) is statistical: candidate hashes idealised as i.i.d.; observed maximum reported',
                         'high-entropy data, min <= max/16 for the statistical clauses']
